@@ -499,3 +499,13 @@ func h3SettingsAppendCase(r *hk.Run, d, e bool, other map[uint64]uint64, clean, 
 	}
 	r.Add(c, fmt.Sprint("h3s|", d, e, sorted), len(other) > 0)
 }
+
+func fh3VerifParseNext(r io.Reader) (string, int64, error) {
+	f, c, err := fh3.VerifParseNext(r)
+	return fmt.Sprint(f.Kind, " ", f.Length), c, err
+}
+
+func refh3ParseNext(r io.Reader) (string, int64, error) {
+	f, c, err := refh3.ParseNext(r)
+	return fmt.Sprint(f.Kind, " ", f.Length), c, err
+}
